@@ -441,8 +441,12 @@ W_RESCALE2D = dict(kind="basis2", fams=["given", "given"], K1=1, K2=1, t1=["0", 
 W_TOLONG = dict(kind="tolong", sub="irr1", shapes=[[2], [3]], masks=[[1, 1], [1, 0, 1]], reindex=False, labels="gaps")
 
 
+W_KEYWORDS = dict(kind="basis1", fam="given", K=1, t=["2", "3", "5"], C=[["1"], ["3"]], ck="witness", w0="2", degree=1, stand=False,
+                  Phi=[["1", "2", "1"]])
+
+
 def witness_cases():
-    return [dict(W_UNCENTRED), dict(W_RESCALE2D), dict(W_TOLONG)]
+    return [dict(W_UNCENTRED), dict(W_RESCALE2D), dict(W_TOLONG), dict(W_KEYWORDS)]
 
 
 # --------------------------------------------------------------------------
@@ -502,6 +506,64 @@ def _marginal(fam, t, K, degree, given):
 
 def _exact(a):
     return [[rs(Fraction(float(x))) for x in r] for r in np.asarray(a, dtype=float).reshape(len(a), -1)]
+
+
+KW_VALUES = dict(squared=True, method_integration="simpson", use_argvals_stand=True)
+# keywords the basis class documents as "Not used here" (or accepts and ignores): a difference that involves one of
+# them is the open finding C14-basis-ignores-keywords, any other difference is a fresh violation
+KW_BY_DESIGN = {"norm": {"use_argvals_stand"}, "normalize": {"use_argvals_stand"}, "mean": {"method_smoothing", "points"},
+                "center": {"method_smoothing", "mean"}, "standardize": {"method_smoothing"}, "inner_product": {"noise_variance", "method_smoothing"}}
+
+
+def _subsets(keys, upto=2):
+    import itertools
+
+    for r in range(0, min(upto, len(keys)) + 1):
+        for ks in itertools.combinations(keys, r):
+            yield ks
+
+
+def _keyword_sweep(bf, g, N, w0, two):
+    def val(r):
+        if isinstance(r, tuple):
+            return dict(w=float(r[1]), v=_lst(np.asarray(val(r[0])).reshape(N, -1)))
+        if hasattr(r, "to_grid"):
+            return np.asarray(r.to_grid().values, dtype=float).reshape(r.n_obs, -1).tolist()
+        if hasattr(r, "values"):
+            return np.asarray(r.values, dtype=float).reshape(len(r.values), -1).tolist()
+        return np.asarray(r, dtype=float).tolist()
+
+    calls = []
+    for ks in _subsets(["squared", "method_integration", "use_argvals_stand"]):
+        kw = {k: KW_VALUES[k] for k in ks}
+        calls += [("norm", kw, None, None), ("normalize", kw, None, None)]
+    for ks in _subsets(["method_integration", "use_argvals_stand"]):
+        kw = {k: KW_VALUES[k] for k in ks}
+        calls += [("rescale", kw, None, None), ("rescale", dict(kw, weights=w0), None, None)]
+    calls += [("standardize", dict(center=False), None, None), ("standardize", dict(center=True), None, None)]
+    # the Gram matrix of CENTRED data: the integration rule is forwarded, the noise variance is accepted and ignored
+    calls += [("inner_product", dict(method_integration="simpson"), "center", dict(noise_variance=0)),
+              ("inner_product", dict(noise_variance=0.5), "center", None)]
+    if not two:
+        calls += [("mean", dict(method_smoothing="PS"), None, None), ("center", dict(method_smoothing="PS"), None, None)]
+    res = []
+    for meth, kw, pre, gextra in calls:
+        row = dict(meth=meth, kw={k: (v if not isinstance(v, float) else float(v)) for k, v in kw.items()})
+        for side, obj in (("b", bf), ("g", g)):
+            try:
+                with warnings.catch_warnings():
+                    warnings.simplefilter("ignore")
+                    o = getattr(obj, pre)() if (pre and side == "b") else obj
+                    k2 = dict(kw)
+                    if side == "g" and gextra:
+                        k2.update(gextra)
+                    row[side] = val(getattr(o, meth)(**k2))
+            except ModuleNotFoundError:
+                row[side] = "skip:cholesky-fallback"
+            except Exception as e:
+                row[side] = "error:" + err_class(e)
+        res.append(row)
+    return res
 
 
 def _run_basis(case):
@@ -613,6 +675,9 @@ def _run_basis(case):
     _try(out, "nsq_g_simpson", lambda: _lst(g.norm(squared=True, method_integration="simpson")))
     _try(out, "rescale_b_simpson", lambda: resc(bf, method_integration="simpson"))
     _try(out, "rescale_g_simpson", lambda: resc(g, method_integration="simpson"))
+    # every keyword of every method compared across the two representations, with non-default values, singly and in
+    # pairs: basis -> op -> to_grid must equal basis -> to_grid -> op (or both raise the same class)
+    out["kw"] = _keyword_sweep(bf, g, N, w0, two)
     # history on ONE object: same call again after the calls above, then after replacing the coefficients
     _try(out, "nsq_b_again", lambda: _lst(bf.norm(squared=True)))
     _try(out, "ip_b_again", lambda: _lst(bf.inner_product()))
@@ -1189,6 +1254,57 @@ def _oracle_basis(case, impl):
                 bad("history", "BasisFunctionalData.*", f"{kb} differs from {kf}: a repeated / later call on the same object does not match a fresh computation")
     if "hist_error" in impl:
         bad("history", "BasisFunctionalData.*", f"history raised {impl['hist_error']}")
+    for row in impl.get("kw") or []:
+        meth, kw, b, g = row["meth"], row["kw"], row.get("b"), row.get("g")
+        causes = ["keyword_ignored_by_design"] if set(kw) & KW_BY_DESIGN.get(meth, set()) else []
+        if two and meth in ("rescale", "standardize") and b == "error:ValueError":
+            causes.append("diag_of_4d_array")
+        entry = "BasisFunctionalData." + meth
+        if isinstance(b, str) and b.startswith("skip:"):
+            continue
+        if isinstance(b, str) or isinstance(g, str):
+            if b != g:
+                bad("keywords", entry, f"{meth}({kw}): coefficient route {str(b)[:40]}, grid route {str(g)[:40]}", causes)
+            continue
+        if meth == "rescale":
+            given = "weights" in kw
+            wtol = 1e-12 * abs(g["w"]) if given else 1e-8 * (abs(g["w"]) + cq)
+            if not (math.isfinite(b["w"]) and math.isfinite(g["w"])):
+                continue
+            if abs(b["w"] - g["w"]) > wtol:
+                bad("keywords", entry, f"rescale({kw}): weight {b['w']!r} from the coefficients, {g['w']!r} from the curves", causes)
+            elif g["w"] > 1e-6 * cq and not _near(b["v"], g["v"], lin / math.sqrt(g["w"]), 1e-7):
+                bad("keywords", entry, f"rescale({kw}): rescaled curves differ between the two routes", causes)
+            continue
+        B_, G_ = np.asarray(b, dtype=float), np.asarray(g, dtype=float)
+        if B_.shape != G_.shape:
+            bad("keywords", entry, f"{meth}({kw}): shapes {B_.shape} vs {G_.shape}", causes)
+            continue
+        if meth in ("normalize",) and zero_norm:
+            continue
+        if meth == "standardize":
+            if N < 2:
+                continue
+            sd = X.std(axis=0)
+            ok = sd > max(1e-6 * linc, 1e-9 * lin)
+            if not ok.any():
+                continue
+            B_, G_ = B_[:, ok], G_[:, ok]
+            sc_, tol_ = (math.sqrt(N) + 1.0) * (1.0 + 1e-6 * lin / sd[ok].min()), 1e-6
+        elif meth == "inner_product":
+            sc_, tol_ = cq, 1e-8
+        elif meth in ("mean",):
+            sc_, tol_ = lin, 1e-8
+        elif meth in ("center",):
+            sc_, tol_ = cen1, 1e-8
+        else:
+            fin = np.isfinite(G_)
+            sc_, tol_ = (float(np.abs(G_[fin]).max()) if fin.any() else 1.0), 1e-7
+            both = ~np.isfinite(B_) & ~np.isfinite(G_)
+            B_, G_ = B_[~both], G_[~both]
+        if not _near(B_, G_, max(sc_, 1e-300), tol_):
+            d_ = float(np.nanmax(np.abs(B_ - G_))) if B_.size else float("nan")
+            bad("keywords", entry, f"{meth}({kw}): coefficient route then to_grid differs from to_grid then {meth}: max |Δ| = {d_:.3g}", causes)
     # inner products: coefficient route vs grid route (centred Gram matrix, no noise correction)
     b, g = impl.get("ip_b"), impl.get("ip_g")
     if not isinstance(b, str) and not isinstance(g, str):
